@@ -1,5 +1,6 @@
 """Reader for parsing a DiffX file into DOM objects."""
 
+from pydiffx.errors import DiffXParseError
 from pydiffx.reader import DiffXReader
 from pydiffx.sections import Section
 
@@ -81,10 +82,19 @@ class DiffXDOMReader(object):
                 section_id = section_info['section']
                 section_handler = section_handlers[section_id]
 
-                cur_section = (
-                    section_handler(diffx, cur_section, section_info) or
-                    cur_section
-                )
+                try:
+                    cur_section = (
+                        section_handler(diffx, cur_section, section_info) or
+                        cur_section
+                    )
+                except (AttributeError, TypeError) as e:
+                    # The section's content or options can't be represented
+                    # in the object model (for instance, preamble text in a
+                    # file that specifies no encoding, or metadata that isn't
+                    # a JSON object).
+                    raise DiffXParseError(
+                        'Unable to load section "%s": %s' % (section_id, e),
+                        linenum=section_info['line'])
 
         return diffx
 
